@@ -74,6 +74,7 @@ var boards = map[string]*board{
 	"Record":   {name: "Record", bid: 9}, // made a hidden board below: not open
 	"ALLPOST":  {name: "ALLPOST", bid: 6},
 	"Security": {name: "Security", bid: 4},
+	pctBoard:   {name: pctBoard, bid: 13, open: true}, // a board whose name is full of printf verbs (created below)
 }
 
 var users = map[string]*user{
@@ -83,6 +84,8 @@ var users = map[string]*user{
 	"test0":     {id: "test0", uid: 7, post: true},
 	"pichu":     {id: "pichu", uid: 3},
 }
+
+const pctBoard = "Pct%s%d%v"
 
 var fixtureDir = map[string][]byte{}          // board -> initial .DIR
 var fixtureFiles = map[string]map[string]bool{} // board -> initial directory entries
@@ -98,6 +101,13 @@ func setupFixture() {
 	cache.Shm.Shm.BMCache[boards["EditExp"].bid-1][0] = ptttype.UID(users["test0"].uid)
 	cache.Shm.Shm.BCache[boards["Note"].bid-1].BrdAttr |= ptttype.BRD_ANONYMOUS
 	cache.Shm.Shm.BCache[boards["Record"].bid-1].BrdAttr |= ptttype.BRD_HIDE
+	pb := &cache.Shm.Shm.BCache[boards[pctBoard].bid-1]
+	*pb = ptttype.BoardHeaderRaw{}
+	copy(pb.Brdname[:], pctBoard)
+	copy(pb.Title[:], "test %s board")
+	if int(cache.Shm.Shm.BNumber) < boards[pctBoard].bid {
+		cache.Shm.Shm.BNumber = int32(boards[pctBoard].bid)
+	}
 	for n := range boards {
 		_ = os.MkdirAll(bpath(n), 0o755)
 		d, _ := os.ReadFile(bpath(n, ".DIR"))
@@ -315,6 +325,24 @@ func setNumPosts(uid, n int) {
 	_, _ = f.WriteAt(b[:], int64(uid-1)*int64(ptttype.USEREC_RAW_SZ)+int64(unsafe.Offsetof(ptttype.USEREC_RAW.NumPosts)))
 }
 
+// setNick patches the Nickname field of record uid in .PASSWDS directly.
+func setNick(uid int, nick []byte) {
+	f, err := os.OpenFile(ptttype.FN_PASSWD, os.O_RDWR, 0o600)
+	if err != nil {
+		return
+	}
+	defer f.Close()
+	b := make([]byte, ptttype.NICKNAMESZ)
+	copy(b, nick)
+	_, _ = f.WriteAt(b, int64(uid-1)*int64(ptttype.USEREC_RAW_SZ)+int64(unsafe.Offsetof(ptttype.USEREC_RAW.Nickname)))
+}
+
+// boards the next reset line declares with the given index on disk and a cold cached total
+var coldBoards = map[string][]byte{}
+
+// nicknames the next reset line will name (user -> nickname); nil: whatever the record holds
+var nickOverride = map[string][]byte{}
+
 func nickOf(id []byte) []byte {
 	uid := &ptttype.UserID_t{}
 	copy(uid[:], id)
@@ -401,7 +429,11 @@ func stateLine(q *request) string {
 	if k := numPosts(q.userID); k >= 0 {
 		np = strconv.Itoa(k)
 	}
-	return fmt.Sprintf("dir=%s n=%s total=%s dtotal=%s np=%s x=%s loglen=%d", dir, n, total(q.board), dtotal, np, x, len(pl))
+	xt := "-"
+	if x != "-" {
+		xt = total("ALLPOST")
+	}
+	return fmt.Sprintf("dir=%s n=%s total=%s dtotal=%s np=%s x=%s xt=%s loglen=%d", dir, n, total(q.board), dtotal, np, x, xt, len(pl))
 }
 
 // ---- reset ----------------------------------------------------------------------------------------------------
@@ -411,6 +443,7 @@ func doReset(ws []string) (string, string) {
 	type bt struct {
 		name string
 		idx  []byte
+		cold bool
 	}
 	var bts []bt
 	uts := map[string]userTok{}
@@ -425,7 +458,7 @@ func doReset(ws []string) (string, string) {
 			return "bad-op", "bad-op"
 		}
 		switch {
-		case p[0] == "b" && len(p) == 3:
+		case (p[0] == "b" || p[0] == "B") && len(p) == 3:
 			ix, ok := unhex(p[2])
 			if !ok {
 				return "bad-op", "bad-op"
@@ -437,7 +470,7 @@ func doReset(ws []string) (string, string) {
 				panic("c09: reset names a board outside the fixture table")
 			}
 			n0[string(a)] = len(ix) / recSz
-			bts = append(bts, bt{string(a), ix})
+			bts = append(bts, bt{string(a), ix, p[0] == "B"})
 		case p[0] == "u" && len(p) == 5:
 			uid, ok2 := natTok(p[2])
 			nick, ok3 := unhex(p[3])
@@ -449,6 +482,7 @@ func doReset(ws []string) (string, string) {
 			uts[string(a)] = userTok{uid, nick}
 			if u := users[string(types.CstrToBytes(a))]; u != nil && u.uid == uid {
 				setNumPosts(uid, np) // the line is authoritative (a replayed history starts from the counts it names)
+				setNick(uid, nick)   // ... and from the nicknames it names
 			}
 		default:
 			return "bad-op", "bad-op"
@@ -465,8 +499,8 @@ func doReset(ws []string) (string, string) {
 			_ = os.WriteFile(bpath(b.name, ".DIR"), b.idx, 0o644)
 		}
 		_ = cache.SetBTotal(ptttype.Bid(boards[b.name].bid))
-		if len(b.idx) == 0 {
-			cache.Shm.Shm.Total[boards[b.name].bid-1] = 0
+		if len(b.idx) == 0 || b.cold {
+			cache.Shm.Shm.Total[boards[b.name].bid-1] = 0 // cold: as ReloadBCache leaves it
 		}
 	}
 	_ = os.Remove(env.Path(".post"))
@@ -478,12 +512,20 @@ func resetLine(bs []string, us []string) string {
 	var sb strings.Builder
 	sb.WriteString("reset")
 	for _, b := range bs {
+		if ix, cold := coldBoards[b]; cold {
+			fmt.Fprintf(&sb, " B:%s:%s", hx.Hex([]byte(b)), hx.Hex(ix))
+			continue
+		}
 		fmt.Fprintf(&sb, " b:%s:%s", hx.Hex([]byte(b)), hx.Hex(fixtureDir[b]))
 	}
 	for _, u := range us {
 		id := make([]byte, ptttype.IDLEN+1)
 		copy(id, u)
-		fmt.Fprintf(&sb, " u:%s:%d:%s:%d", hx.Hex(id), users[u].uid, hx.Hex(nickOf(id)), numPosts(id))
+		nick := nickOf(id)
+		if n, ok := nickOverride[u]; ok {
+			nick = n
+		}
+		fmt.Fprintf(&sb, " u:%s:%d:%s:%d", hx.Hex(id), users[u].uid, hx.Hex(nick), numPosts(id))
 	}
 	return sb.String()
 }
@@ -895,6 +937,8 @@ func main() {
 		"with and without the announcement tag (also truncated tags); bodies of 0..30 lines over {printable, space, TAB, NUL, ESC, '[', digits, ';', ',', movement finals, 'm', 's', 0x80-0xFE}, with/without a trailing empty line; " +
 		"sequences of 2..12 posts to the same and to different boards; time, date, random suffix and Ctime text masked on both sides (format and range judged by the oracle). " +
 		"pure streams: ptt.StripANSIMoveCmd and cmsys.Trim on enumerated short strings (all strings up to length 4 over a 7-symbol alphabet) and random lines. " +
+		"cold totals: histories that start with N records already in ALLPOST's (or the posted board's) index and a cached total of 0, as after ReloadBCache. " +
+		"printf metacharacters: '%' and verbs (%s %d %v %x %q %[1]s %*d %!) in every text field the post path renders — nickname (written into the user record by reset), title, class, body lines, ip, from text, and a board whose NAME is \"Pct%s%d%v\". " +
 		"site configuration: all 32 settings of HAVE_ANONYMOUS, ALLOW_FREE_TN_ANNOUNCE, USE_POST_ENTROPY, QUERY_ARTICLE_URL, USE_AID_URL (set in-process, restored by reset), each with posts to the anonymous-flagged, the moderated+credited and a plain board, tagged titles included. " +
 		"sessions: the same user loaded as two or three independent records (`load`) before posting through them (`postas` = ptt.NewPost with the kept, possibly stale record), interleaved with bbs.CreateArticle posts of the same user. " +
 		"write failures: posts whose article file may not grow beyond a limit (RLIMIT_FSIZE): the request must fail and leave index, totals, counters untouched. " +
